@@ -56,7 +56,13 @@ func rebootPersistedStore(config *Config, log *zap.SugaredLogger, stats tally.Sc
 			return nil, err
 		}
 		if !ok {
-			log.With("key", key).Warn("Could not reboot blob from disk - its parent directory is there but the blob is missing")
+			log.With("key", key).Warn("Could not reboot blob from disk - its parent directory is there but the blob is missing. Removing the leftover directory")
+			// The entry is invisible to the store. If its directory stayed on disk, a later Create or
+			// MarkComplete of the same key would trip over it (O_EXCL on the data file, rename onto a non-empty dir).
+			err = os.RemoveAll(pather.dirPath(key, complete))
+			if err != nil {
+				return nil, fmt.Errorf("remove leftover dir of a blob that could not be rebooted: %w", err)
+			}
 			continue
 		}
 		if b.complete && b.evictable {
